@@ -2,7 +2,10 @@
 
 P: _validate_measurement (all rationals m >= 0, both modes), _create_db_operand_{x86,aarch64}, _create_db_operand
    over the documented operand-code language of the README (symbolic code strings).
-B: _get_ibench_output / _get_asmbench_output / import_benchmark_output + dump (bounded/c20_import.py).
+P: _get_ibench_output (TP/LT lines of a form merged into one entry; loop invariant over a ghost heap of entries, files of any
+   length) and _get_asmbench_output (block structure, stop at the first malformed block, earlier entries untouched); the file
+   enters through ghost line structure with an assumed contract for the str operations used (stated in the ghost classes).
+B: the same end to end on real files incl. set_instruction_entry and dump (bounded/c20_import.py).
 """
 import z3
 
@@ -172,6 +175,384 @@ def _mem_keys_fix(extra):
     return extra
 
 
+def asmbench_unit(res):
+    """P: _get_asmbench_output (real code) for files of ANY number of lines.  The file enters through ghost structure: line j is
+    blank or not (blank(j)), a non-blank line has a form name with a sequence of operand codes and a number as its second word
+    (A: str.strip / split / float act on such lines as the ghost classes say).  Block k = lines 4k .. 4k+3 (shorter at the end of the
+    file).  Obligations per block: the import stops - without storing anything for this block - iff the block is all blank, or has
+    fewer than 3 lines, or has a 4th line that is not blank; otherwise exactly one entry is stored under the stripped first line,
+    with the mnemonic and the decoded operand codes of that line, throughput = validated number of line 4k+2, latency = validated
+    number of line 4k+1, no port pressure.  Earlier entries are never touched (the store only adds / replaces by key)."""
+    ex = Engine([REPO + "/" + DBI])
+    fn = ex.funcs["_get_asmbench_output"]
+    ex.index_loops(fn)
+    I_, B_, R_ = z3.IntSort(), z3.BoolSort(), z3.RealSort()
+    N = z3.Int("n_lines")
+    blank = z3.Function("line_is_blank", I_, B_)
+    num = z3.Function("second_word_as_number", I_, R_)
+    ncodes = z3.Function("n_operand_codes", I_, I_)
+    ok_tp, ok_lt = z3.Function("tp_in_a_window", R_, B_), z3.Function("lt_within_5_percent", R_, B_)
+    v_tp, v_lt = z3.Function("snapped_tp", R_, R_), z3.Function("snapped_lt", R_, R_)
+    st = {}
+
+    class Line:
+        def __init__(self, j):
+            self.j = j
+
+        def sym_method(self, ex_, name, args, kw):
+            if name == "strip" and not args:
+                return Stripped(self.j)
+            if name == "split" and not args:
+                return Words(self.j)
+            raise Unsupported("line." + name)
+
+    class Stripped:
+        def __init__(self, j):
+            self.j = j
+
+        def sym_eq(self, ex_, other):
+            if other == "":
+                return SBool(blank(self.j))
+            if isinstance(other, Stripped):
+                return SBool(self.j == other.j)
+            raise Unsupported("comparison of a stripped line")
+
+        def sym_method(self, ex_, name, args, kw):
+            if name == "split" and args == ["-"]:
+                return [("mnemonic-of-line", self.j), Codes(self.j)]
+            raise Unsupported("stripped line." + name)
+
+    class Codes:
+        def __init__(self, j):
+            self.j = j
+
+        def sym_method(self, ex_, name, args, kw):
+            if name == "split" and args == ["_"]:
+                j = self.j
+                return SymSeq(ncodes(j), lambda k: ("code", j, k))
+            raise Unsupported("operand codes." + name)
+
+    class Words:
+        def __init__(self, j):
+            self.j = j
+
+        def sym_getitem(self, ex_, i):
+            if i == 1:
+                return NumWord(self.j)
+            raise Unsupported("word of a line")
+
+    class NumWord:
+        def __init__(self, j):
+            self.j = j
+
+        def sym_float(self, ex_):
+            return SNum(num(self.j), False)
+
+    def validate(ex_, so, a, kw):
+        x, mode = real_term(a[0]), a[1]
+        okf, vf = (ok_tp, v_tp) if mode == "tp" else (ok_lt, v_lt)
+        return SNum(vf(x), False) if ex_.branch(okf(x)) else None
+
+    class Entry:
+        def __init__(self, kw):
+            self.kw = kw
+
+        def sym_getattr(self, ex_, attr):
+            return self.kw[attr]
+
+    class Entries:
+        def __init__(self):
+            self.stores = []
+
+        def sym_havoc(self, ex_, tag):
+            return self
+
+        def sym_setitem(self, ex_, key, val):
+            self.stores.append((key, val))
+
+    ex.abstract["_validate_measurement"] = validate
+    ex.abstract["_create_db_operand"] = lambda ex_, so, a, kw: ("decoded", a[0], a[1])
+    ex.names["InstructionForm"] = lambda ex_, *a, **kw: Entry(kw) if not a else (_ for _ in ()).throw(Unsupported("positional InstructionForm arguments"))
+
+    def malformed(k):
+        # block k: lines 4k .. min(4k+4, N) - 1
+        ln = z3.If(4 * k + 4 <= N, 4, N - 4 * k)
+        allblank = z3.And([z3.Implies(4 * k + d < N, blank(4 * k + d)) for d in range(4)])
+        bad = z3.Or(ln < 3, z3.And(ln == 4, z3.Not(blank(4 * k + 3))))
+        return allblank, bad
+
+    class Hook:
+        def pre_havoc(self, ex_, env):
+            if isinstance(env.get("db_entries"), dict):
+                if env["db_entries"]:
+                    ex_.oblige("store-empty-before-the-loop", False)
+                env["db_entries"] = st["entries"] = Entries()
+
+        def on_body_start(self, ex_, env, k):
+            st["entries"].stores.clear()
+
+        def on_body_end(self, ex_, env, k):
+            allblank, bad = malformed(k)
+            stores = st["entries"].stores
+            ex_.oblige("block/not-stopped-only-if-well-formed", z3.And(z3.Not(allblank), z3.Not(bad)))
+            ok = len(stores) == 1 and isinstance(stores[0][0], Stripped) and isinstance(stores[0][1], Entry)
+            if not ok:
+                ex_.oblige("block/exactly-one-entry-under-the-stripped-first-line", False)
+                return
+            key, e = stores[0]
+            kw = e.kw
+            j = z3.FreshInt("j")
+            ops = kw.get("operands")
+            shape = isinstance(ops, SymSeq) and kw.get("mnemonic") is not None and isinstance(kw.get("mnemonic"), tuple) and set(kw) == {"mnemonic", "operands", "throughput", "latency", "port_pressure"} and kw["port_pressure"] is None
+            if not shape:
+                ex_.oblige("block/entry-fields", False)
+                return
+            el = ops.at(j)
+            okel = isinstance(el, tuple) and el[0] == "decoded" and isinstance(el[1], tuple) and el[1][0] == "code" and el[2] == st["isa"]
+            tpv, ltv = kw["throughput"], kw["latency"]
+            xt, xl = num(4 * k + 2), num(4 * k + 1)
+            ex_.oblige("block/entry-fields", z3.And(key.j == 4 * k, kw["mnemonic"][1] == 4 * k, ops.length == ncodes(4 * k),
+                                                   z3.Implies(z3.And(0 <= j, j < ops.length), z3.And(el[1][1] == 4 * k, el[1][2] == j)) if okel else False,
+                                                   (real_term(tpv) == v_tp(xt)) if tpv is not None else z3.Not(ok_tp(xt)), z3.BoolVal(tpv is None) == z3.Not(ok_tp(xt)),
+                                                   (real_term(ltv) == v_lt(xl)) if ltv is not None else z3.Not(ok_lt(xl)), z3.BoolVal(ltv is None) == z3.Not(ok_lt(xl))))
+
+        def on_break(self, ex_, env, k):
+            allblank, bad = malformed(k)
+            ex_.oblige("block/stopped-only-if-blank-or-malformed-and-nothing-stored", z3.And(z3.Or(allblank, bad), z3.BoolVal(len(st["entries"].stores) == 0)))
+            from pyvc.engine import PathEnd
+            raise PathEnd()
+
+    ex.loop_hooks[("_get_asmbench_output", 0)] = Hook()
+    ex.invariants[("_get_asmbench_output", 0)] = lambda ex_, env, k: z3.BoolVal(True)
+    for isa in ("x86", "aarch64"):
+        def run(isa=isa):
+            st.clear()
+            st["isa"] = isa
+            return ex.call_function("_get_asmbench_output", [SymSeq(N, lambda j: Line(j)), isa])
+
+        q = z3.Int("q")
+        paths = ex.explore(run, [N >= 0, z3.ForAll([q], ncodes(q) >= 1)])
+        res.add_paths(paths, lambda v, p: isinstance(v, Entries) or isinstance(v, dict), kind=f"{isa}/returns-the-store")
+    return res
+
+
+def ibench_unit(res):
+    """P: _get_ibench_output (real code) for files of ANY number of lines.  Ghost structure of a line j: header / blank / data line of
+    form form(j) (the 'mnemonic-operands' part of its name) with tag TP, LT or something else and a number as second word (A: str
+    operations as in the ghost classes).  The entries live in a ghost heap indexed by form.  Loop invariant (lines < k processed) and
+    result (k = N), under the precondition that a form has at most one TP and one LT line:
+      an entry exists exactly for the forms of the data lines; its throughput is the validated number of the form's TP line (absent if
+      rejected or if there is no TP line), likewise the latency and the LT line - the two lines of a form are merged into ONE entry,
+      whichever comes first; header and blank lines contribute nothing."""
+    ex = Engine([REPO + "/" + DBI])
+    fn = ex.funcs["_get_ibench_output"]
+    ex.index_loops(fn)
+    I_, B_, R_ = z3.IntSort(), z3.BoolSort(), z3.RealSort()
+    N = z3.Int("n_lines")
+    header, blank = z3.Function("is_header", I_, B_), z3.Function("is_blank", I_, B_)
+    form, tag = z3.Function("form_of_line", I_, I_), z3.Function("tag_of_line", I_, I_)  # tag 0 TP, 1 LT, other: neither
+    num = z3.Function("second_word_as_number", I_, R_)
+    ncodes = z3.Function("n_operand_codes", I_, I_)
+    ok_tp, ok_lt = z3.Function("tp_in_a_window", R_, B_), z3.Function("lt_within_5_percent", R_, B_)
+    v_tp, v_lt = z3.Function("snapped_tp", R_, R_), z3.Function("snapped_lt", R_, R_)
+    data = lambda j: z3.And(z3.Not(header(j)), z3.Not(blank(j)))
+    AB, AR = z3.ArraySort(I_, B_), z3.ArraySort(I_, R_)
+    H = {}
+
+    def fresh_heap(tagname):
+        H.update(present=z3.FreshConst(AB, "present" + tagname), tph=z3.FreshConst(AB, "tp_has" + tagname), tpv=z3.FreshConst(AR, "tp_val" + tagname),
+                 lth=z3.FreshConst(AB, "lt_has" + tagname), ltv=z3.FreshConst(AR, "lt_val" + tagname))
+
+    class Line:
+        def __init__(self, j):
+            self.j = j
+
+        def sym_contains(self, ex_, item):
+            if item == "Using frequency":
+                return SBool(header(self.j))
+            raise Unsupported("substring test on a line")
+
+        def sym_method(self, ex_, name, args, kw):
+            if name == "strip" and not args:
+                return Stripped(self.j)
+            if name == "split" and args == [":"]:
+                return [Name(self.j), "rest"]
+            if name == "split" and not args:
+                return ["first-word", NumWord(self.j)]
+            raise Unsupported("line." + name)
+
+    class Stripped:
+        def __init__(self, j):
+            self.j = j
+
+        def sym_len(self, ex_):
+            return SNum(z3.If(blank(self.j), 0, 1 + z3.Int("more_chars")), True)
+
+    class NumWord:
+        def __init__(self, j):
+            self.j = j
+
+        def sym_float(self, ex_):
+            return SNum(num(self.j), False)
+
+    class Name:  # 'mnemonic-operands-TAG'
+        def __init__(self, j):
+            self.j = j
+
+        def sym_method(self, ex_, name, args, kw):
+            if name == "split" and args == ["-"]:
+                return Parts(self.j)
+            raise Unsupported("name." + name)
+
+    class Parts:
+        def __init__(self, j):
+            self.j = j
+
+        def sym_getslice(self, ex_, lo, hi, step):
+            if lo is None and hi == 2:
+                return KeyParts(self.j)
+            raise Unsupported("slice of the name parts")
+
+        def sym_getitem(self, ex_, i):
+            if i == 0:
+                return ("mnemonic-of-line", self.j)
+            if i == 1:
+                return Codes(self.j)
+            if i == -1 or i == 2:
+                return Tag(self.j)
+            raise Unsupported("part of a name")
+
+    class KeyParts:
+        def __init__(self, j):
+            self.j = j
+
+        def sym_join(self, ex_, sep):
+            if sep != "-":
+                raise Unsupported("join with another separator")
+            return Key(form(self.j))
+
+    class Key:
+        def __init__(self, f):
+            self.f = f
+
+    class Codes:
+        def __init__(self, j):
+            self.j = j
+
+        def sym_method(self, ex_, name, args, kw):
+            if name == "split" and args == ["_"]:
+                j = self.j
+                return SymSeq(ncodes(j), lambda k: ("code", j, k))
+            raise Unsupported("operand codes." + name)
+
+    class Tag:
+        def __init__(self, j):
+            self.j = j
+
+        def sym_contains(self, ex_, item):
+            if item in ("TP", "LT"):
+                return SBool(tag(self.j) == (0 if item == "TP" else 1))
+            raise Unsupported("substring test on the tag")
+
+    class EntryRef:
+        def __init__(self, f):
+            self.f = f
+
+        def sym_getattr(self, ex_, attr):
+            hk, vk = {"throughput": ("tph", "tpv"), "latency": ("lth", "ltv")}[attr]
+            return SNum(z3.Select(H[vk], self.f), False) if ex_.branch(z3.Select(H[hk], self.f)) else None
+
+        def sym_setattr(self, ex_, attr, v):
+            hk, vk = {"throughput": ("tph", "tpv"), "latency": ("lth", "ltv")}[attr]
+            H[hk] = z3.Store(H[hk], self.f, z3.BoolVal(v is not None))
+            if v is not None:
+                H[vk] = z3.Store(H[vk], self.f, real_term(v))
+
+    st = {}
+
+    def new_entry(ex_, *a, **kw):
+        mn, ops = kw.get("mnemonic"), kw.get("operands")
+        okc = isinstance(mn, tuple) and mn[0] == "mnemonic-of-line" and isinstance(ops, SymSeq) and kw.get("throughput", 0) is None and kw.get("latency", 0) is None and kw.get("port_pressure", 0) is None and not a
+        j = z3.FreshInt("j")
+        el = ops.at(j) if okc else None
+        okc = okc and isinstance(el, tuple) and el[0] == "decoded" and el[2] == st["isa"]
+        ex_.oblige("new-entry/mnemonic-and-decoded-operand-codes-of-this-line", z3.And(mn[1] == st["k"], ops.length == ncodes(st["k"]),
+                                                                                      z3.Implies(z3.And(0 <= j, j < ops.length), z3.And(el[1][1] == st["k"], el[1][2] == j))) if okc else False)
+        f = form(st["k"])
+        H["tph"], H["lth"] = z3.Store(H["tph"], f, False), z3.Store(H["lth"], f, False)  # a fresh entry has neither value
+        return EntryRef(f)
+
+    class Entries:
+        def sym_havoc(self, ex_, tag_):
+            return self
+
+        def sym_contains(self, ex_, key):
+            if not isinstance(key, Key):
+                raise Unsupported("store lookup with a foreign key")
+            return SBool(z3.Select(H["present"], key.f))
+
+        def sym_getitem(self, ex_, key):
+            return EntryRef(key.f)
+
+        def sym_setitem(self, ex_, key, val):
+            ex_.oblige("store/entry-filed-under-its-own-form", z3.And(key.f == val.f) if isinstance(key, Key) and isinstance(val, EntryRef) else False)
+            H["present"] = z3.Store(H["present"], key.f, True)
+            st["stored"] = st.get("stored", 0) + 1
+
+    def validate(ex_, so, a, kw):
+        x, mode = real_term(a[0]), a[1]
+        okf, vf = (ok_tp, v_tp) if mode == "tp" else (ok_lt, v_lt)
+        return SNum(vf(x), False) if ex_.branch(okf(x)) else None
+
+    ex.abstract["_validate_measurement"] = validate
+    ex.abstract["_create_db_operand"] = lambda ex_, so, a, kw: ("decoded", a[0], a[1])
+    ex.names["InstructionForm"] = new_entry
+
+    def inv(ex_, env, k):
+        if isinstance(env.get("db_entries"), dict):  # loop entry: nothing stored yet
+            return z3.BoolVal(not env["db_entries"])
+        j, f = z3.Int("j"), z3.Int("f")
+        P, TH, TV, LH, LV = H["present"], H["tph"], H["tpv"], H["lth"], H["ltv"]
+        inr = lambda jj: z3.And(0 <= jj, jj < k, data(jj))
+        return z3.And(
+            z3.ForAll([j], z3.Implies(inr(j), z3.Select(P, form(j)))),
+            z3.ForAll([f], z3.Implies(z3.Select(P, f), z3.Exists([j], z3.And(inr(j), form(j) == f)))),
+            z3.ForAll([j], z3.Implies(z3.And(inr(j), tag(j) == 0), z3.And(z3.Select(TH, form(j)) == ok_tp(num(j)), z3.Implies(ok_tp(num(j)), z3.Select(TV, form(j)) == v_tp(num(j)))))),
+            z3.ForAll([j], z3.Implies(z3.And(inr(j), tag(j) == 1), z3.And(z3.Select(LH, form(j)) == ok_lt(num(j)), z3.Implies(ok_lt(num(j)), z3.Select(LV, form(j)) == v_lt(num(j)))))),
+            z3.ForAll([f], z3.Implies(z3.And(z3.Select(P, f), z3.Select(TH, f)), z3.Exists([j], z3.And(inr(j), form(j) == f, tag(j) == 0)))),
+            z3.ForAll([f], z3.Implies(z3.And(z3.Select(P, f), z3.Select(LH, f)), z3.Exists([j], z3.And(inr(j), form(j) == f, tag(j) == 1)))))
+
+    class Hook:
+        def pre_havoc(self, ex_, env):
+            if isinstance(env.get("db_entries"), dict):
+                env["db_entries"] = Entries()
+
+        def havoc(self, ex_, env):
+            fresh_heap("!")
+
+        def on_body_start(self, ex_, env, k):
+            st["k"], st["stored"] = k, 0
+
+        def on_body_end(self, ex_, env, k):
+            ex_.oblige("line/stored-iff-data-line", z3.BoolVal(st["stored"] == 1) == data(k) if st["stored"] <= 1 else False)
+
+    ex.loop_hooks[("_get_ibench_output", 0)] = Hook()
+    ex.invariants[("_get_ibench_output", 0)] = inv
+    j1, j2 = z3.Ints("j1 j2")
+    uniq = z3.ForAll([j1, j2], z3.Implies(z3.And(data(j1), data(j2), form(j1) == form(j2), tag(j1) == tag(j2), z3.Or(tag(j1) == 0, tag(j1) == 1)), j1 == j2))
+    q = z3.Int("q")
+    for isa in ("x86", "aarch64"):
+        def run(isa=isa):
+            st.clear()
+            st["isa"] = isa
+            fresh_heap("0")
+            return ex.call_function("_get_ibench_output", [SymSeq(N, lambda j: Line(j)), isa])
+
+        paths = ex.explore(run, [N >= 0, uniq, z3.ForAll([q], ncodes(q) >= 1), z3.Int("more_chars") >= 0])
+        res.add_paths(paths, lambda v, p: isinstance(v, Entries) or (isinstance(v, dict) and not v), kind=f"{isa}/returns-the-store")
+    return res
+
+
 def units(tier):
     us = [
         Unit("C20/_validate_measurement", validate_unit, "P", [(DBI, "_validate_measurement")]),
@@ -179,6 +560,8 @@ def units(tier):
              [(DBI, "_create_db_operand_x86"), (DBI, "_create_db_operand")]),
         Unit("C20/_create_db_operand_aarch64", decoder_unit("aarch64"), "P",
              [(DBI, "_create_db_operand_aarch64"), (DBI, "_create_db_operand")]),
+        Unit("C20/_get_ibench_output(TP/LT merged per form, any file length)", ibench_unit, "P", [(DBI, "_get_ibench_output")]),
+        Unit("C20/_get_asmbench_output(block structure, any file length)", asmbench_unit, "P", [(DBI, "_get_asmbench_output")]),
         bounded_unit("C20/import-end-to-end", "c20_import", [(DBI, "_get_ibench_output"), (DBI, "_get_asmbench_output"),
                      (DBI, "import_benchmark_output"), ("osaca/semantics/hw_model.py", "MachineModel.set_instruction_entry"),
                      ("osaca/semantics/hw_model.py", "MachineModel.dump")], timeout=1200),
